@@ -1,44 +1,69 @@
 """C13 -- File pruning never changes a query's answer.
 
 Proof      : coq/Props/C13.v (C13_prune_sound, C13_scan_equal, C13_bounds_true) over
-             Gen/GenPrune.v, which is REGENERATED from filters._file_may_match on every run.
-Tie        : translator (GenPrune) + correspondence of every hand-written model piece with the code:
+             Gen/GenPrune.v, which is REGENERATED from filters._file_may_match on every run;
+             C13_bound_roundtrip over Gen/GenBound.v (_encode_bound / _decode_bound);
+             C13_manifest_roundtrip, C13_prune_sound_via_manifest, C13_scan_equal_via_manifest over
+             Gen/GenManifest13.v, REGENERATED from FileManager.create_manifest_file / read_manifest_file (entry order,
+             the per-record bounds expressions, the reader): any number of ADDED / EXISTING entries and columns, each
+             DataFile comes back with its own bounds (value and type), so pruning on a manifest's bounds is sound.
+Tie        : translator (GenPrune, GenBound, GenManifest13) + correspondence of every hand-written model piece with the code:
                prims    Python <,<=,== on values           vs Model/Value.v py_lt/py_le/py_eqb
                prune    filters._file_may_match            vs Model/Prune.v file_may_match (uses Gen)
                bounds   DataFileManager._compute_column_bounds vs Model/Prune.v bounds_of
                select   real pyarrow evaluation of the compiled filter vs Model/Prune.v selected
+               codec    _encode_bound's tag / _decode_bound's value vs Model/Bound.v enc / dec
+               manifest real create_manifest_file -> raw Avro records -> read_manifest_file on multi-entry, multi-column
+                        manifests (bounds of different columns / files equal as Python values but differently typed)
+                        vs Model/Manifest13.v write_manifest / via_manifest, and the pruning decision on the DataFile read back
 Oracle /   : implementation-only, independent of the model:
-search       unsound  real bounds -> real _file_may_match says skip -> real pyarrow selects a row
-               e2e      scan(filter) with pruning vs the same scan with pruning disabled, real tables
+search       unsound  real bounds of a multi-column file -> real manifest (sibling entries, ADDED / EXISTING) -> real
+                        _file_may_match says skip -> real pyarrow selects a row
+               manifest every bound of every entry of a real manifest comes back with its value and type
+               e2e      scan(filter) with pruning vs the same scan with pruning disabled, real tables (single appends,
+                        multi-append transactions, partial deletes that rewrite a manifest, retried commits)
                codec    _decode_bound(_encode_bound(v)) is v, type-faithfully
 """
 from __future__ import annotations
 
 import datetime as dt
 import itertools
+import math
 import os
 import shutil
 import tempfile
+import time
 from typing import Any, Dict, List, Optional, Tuple
 
 from harness.lib import coqbuild
 from harness.lib.values import DOMAIN, LITERALS, NAN, same, val_json, val_to_coq, val_unjson, vals_to_coq
 
 LEVEL = "proof"
-THEOREMS = ["C13_prune_sound", "C13_scan_equal", "C13_bounds_true", "C13_bound_roundtrip"]
+THEOREMS = ["C13_prune_sound", "C13_scan_equal", "C13_bounds_true", "C13_bound_roundtrip",
+            "C13_manifest_roundtrip", "C13_prune_sound_via_manifest", "C13_scan_equal_via_manifest"]
 REQ = ["DS.Model.Value", "DS.Gen.GenPrune", "DS.Model.Prune"]
 REQB = ["DS.Model.Value", "DS.Model.BoundPrim", "DS.Gen.GenBound", "DS.Model.Bound"]
+REQM = ["DS.Model.Value", "DS.Model.BoundPrim", "DS.Gen.GenBound", "DS.Model.Bound", "DS.Model.ManifestPrim", "DS.Gen.GenManifest13",
+        "DS.Gen.GenPrune", "DS.Model.Prune", "DS.Model.Manifest13"]
 
 MANIFEST_ENTRY = {
     "level_text": "C13_prune_sound / C13_scan_equal / C13_bounds_true proved in Coq for every file content, schema, filter "
                   "conjunction and literal (unbounded), over the pruning decision regenerated from filters._file_may_match on "
-                  "every run; hand-written model pieces (Python comparison semantics, bounds computation, pyarrow selection) "
-                  "are tied to the code by differential execution on exhaustive small domains; implementation-only oracles "
-                  "(real bounds -> real pruning -> real pyarrow; pruned vs unpruned scans) search for a failing input",
-    "level_note": "trusted: Coq kernel; translator/gen_prune.py; assumption PA-exact (pyarrow evaluates a filter exactly or "
-                  "raises; lossy is_in casts are an unconstrained oracle X); columns are kind-homogeneous; the harness runs "
-                  "the code faithfully",
-    "technique": "Coq proof over translator-regenerated pruning kernel + differential correspondence",
+                  "every run; C13_bound_roundtrip over the regenerated bound codec; C13_manifest_roundtrip / "
+                  "C13_prune_sound_via_manifest / C13_scan_equal_via_manifest for every manifest (any number of ADDED and "
+                  "EXISTING entries, columns and bounds, incl. bounds equal as Python values but differently typed) over the "
+                  "record construction and reader regenerated from create_manifest_file / read_manifest_file; hand-written "
+                  "model pieces (Python comparison semantics, bounds computation, pyarrow selection, codec, manifest trip) "
+                  "are tied to the code by differential execution on exhaustive small domains and multi-entry manifests; "
+                  "implementation-only oracles (real multi-column bounds -> real manifest -> real pruning -> real pyarrow; "
+                  "every bound of a real manifest comes back type-faithfully; pruned vs unpruned scans over single appends, "
+                  "multi-append transactions, partial deletes and retried commits) search for a failing input",
+    "level_note": "trusted: Coq kernel; translator/gen_prune.py, gen_bound.py, gen_manifest13.py; assumption PA-exact (pyarrow "
+                  "evaluates a filter exactly or raises; lossy is_in casts are an unconstrained oracle X); assumptions JSON-exact "
+                  "and Avro-exact (json / fastavro give back the payloads, records and string maps they were given; validated "
+                  "on real manifests every run); columns are kind-homogeneous; the harness runs the code faithfully",
+    "technique": "Coq proof over translator-regenerated pruning kernel, bound codec and manifest record construction + "
+                 "differential correspondence",
     "design_ref": "DESIGN.md section 5 C13",
 }
 
@@ -287,50 +312,352 @@ def corr_select(ctx) -> None:
     ctx.stats["select_outside_PA_exact"] = outside
 
 
+# ---------------------------------------------------------------------------------- real manifests
+NUMERIC_KINDS = ["long", "int", "double", "float", "boolean"]
+
+
+def twin_value(kind2: str, v: Any) -> Any:
+    """A cell of column kind `kind2` that is EQUAL to v as a Python value where one exists (1 == 1.0 == True, 0 == 0.0 == False,
+    date vs midnight timestamp, "123" vs 123): columns that differ in type only.  None = NULL (no such value)."""
+    if v is None:
+        return None
+    if isinstance(v, float) and v != v:
+        return NAN if kind2 in ("double", "float") else None
+    if isinstance(v, str) and kind2 in ("long", "int", "double"):
+        try:
+            v = int(v) if kind2 != "double" else float(v)
+        except ValueError:
+            return None
+    if isinstance(v, (bool, int, float)):
+        if isinstance(v, float) and (math.isinf(v) or v != int(v)):
+            return v if kind2 == "double" else (str(v) if kind2 == "string" else None)
+        x = int(v)
+        if kind2 == "long":
+            return x if abs(x) < 2**63 else None
+        if kind2 == "int":
+            return x if abs(x) < 2**31 else None
+        if kind2 == "double":
+            return float(x) if float(x) == x else None
+        if kind2 == "float":
+            return float(x) if float(x) == x and canon_cell("float", float(x)) == x else None
+        if kind2 == "boolean":
+            return bool(x) if x in (0, 1) else None
+        if kind2 == "string":
+            return str(v)
+        return None
+    if kind2 == "string":
+        return v if isinstance(v, str) else str(v)
+    if (kind2 == "timestamp" and isinstance(v, dt.datetime)) or (kind2 == "time" and isinstance(v, dt.time)) \
+            or (kind2 == "date" and isinstance(v, dt.date) and not isinstance(v, dt.datetime)):
+        return v
+    if kind2 == "timestamp" and isinstance(v, dt.date) and not isinstance(v, dt.datetime):
+        return dt.datetime(v.year, v.month, v.day)
+    if kind2 == "date" and isinstance(v, dt.datetime):
+        return v.date()
+    return None
+
+
+def bounds_same(orig: Optional[Dict[int, Any]], back: Optional[Dict[int, Any]]) -> bool:
+    """Same field ids, and under each the same value of the same type ({} and None both mean `no bounds`)."""
+    o, b = orig or {}, back or {}
+    return set(o) == set(b) and all(same(o[k], b[k]) for k in o)
+
+
+def bmap_json(b: Optional[Dict[int, Any]]) -> Any:
+    return None if b is None else [[k, val_json(v)] for k, v in b.items()]
+
+
+def bmap_unjson(j: Any) -> Optional[Dict[int, Any]]:
+    return None if j is None else {int(k): val_unjson(v) for k, v in j}
+
+
+class ManifestBench:
+    """A real table in the scratch directory; its real FileManager writes and reads the manifests under test."""
+
+    def __init__(self, ctx, name: str = "manifest-bench") -> None:
+        from datashard import create_table
+        from datashard.data_structures import Schema
+        self.path = os.path.join(ctx.scratch, name)
+        shutil.rmtree(self.path, ignore_errors=True)
+        self.table = create_table(self.path, Schema(schema_id=1, fields=[{"id": 1, "name": "c", "type": "long", "required": False}]))
+        self.fm = self.table.file_manager
+        self.n = 0
+        self.manifests = 0
+
+    def datafile(self, lo: Optional[Dict[int, Any]], hi: Optional[Dict[int, Any]], existing: bool = False) -> Any:
+        _pa, _filters, DataFile, FileFormat, _Schema = _imports()
+        self.n += 1
+        return DataFile(file_path=f"/data/f{self.n}.parquet", file_format=FileFormat.PARQUET, partition_values={}, record_count=1,
+                        file_size_in_bytes=1, lower_bounds=None if lo is None else dict(lo), upper_bounds=None if hi is None else dict(hi),
+                        added_snapshot_id=7 if existing else None, sequence_number=1 if existing else None)
+
+    def trip(self, added: List[Tuple[Any, Any]], existing: List[Tuple[Any, Any]], want_raw: bool = False,
+             objects: Optional[Tuple[List[Any], List[Any]]] = None) -> Tuple[List[Any], List[Any], List[Any]]:
+        """One create_manifest_file(added, existing_files=existing) -> read_manifest_file.  Returns (the DataFile objects handed to
+        the writer, in entry order; the DataFiles read back; the raw Avro records if asked).  `objects` re-uses DataFile objects
+        that were already written once (a retried commit rebuilds its manifests from the same in-memory objects)."""
+        if objects is None:
+            a = [self.datafile(lo, hi) for lo, hi in added]
+            e = [self.datafile(lo, hi, True) for lo, hi in existing]
+        else:
+            a, e = objects
+        mf = self.fm.create_manifest_file(a, snapshot_id=9, existing_files=e, sequence_number=2)
+        self.manifests += 1
+        path = mf.manifest_path.lstrip("/")
+        back = self.fm.read_manifest_file(path)
+        raw: List[Any] = []
+        if want_raw:
+            import fastavro
+            from io import BytesIO
+            raw = list(fastavro.reader(BytesIO(self.table.storage.read_file(path))))
+        try:
+            self.table.storage.delete_file(path)
+        except Exception:   # noqa: BLE001  (scratch hygiene only)
+            pass
+        return a + e, back, raw
+
+
+def gen_column_bounds(rng, kind: str) -> Tuple[Any, Any]:
+    """(min, max) as the writer can compute them for a column of that kind."""
+    dom = [canon_cell(kind, v) for v in DOMAIN[kind] if not (isinstance(v, float) and v != v)]
+    if kind in ("double", "float") and rng.random() < 0.1:
+        return NAN, NAN                                     # every non-null value is NaN
+    a, b = rng.choice(dom), rng.choice(dom)
+    if rng.random() < 0.35:
+        b = a                                               # single-valued column
+    return (a, b) if a <= b else (b, a)
+
+
+def gen_manifest_case(rng) -> Dict[str, Any]:
+    """One manifest: ADDED entries (the files of one, possibly multi-append, transaction) and EXISTING entries (survivors of a
+    partial delete), several columns each.  Columns of different numeric kinds share values (0 / 0.0 / False, 1 / 1.0 / True, ...), so
+    bounds that are equal as Python values but differently typed sit next to each other, within one file and across files."""
+    ncols = rng.choice([1, 2, 3, 4])
+    pool = NUMERIC_KINDS if rng.random() < 0.6 else list(DOMAIN)
+    kinds = [rng.choice(pool) for _ in range(ncols)]
+    ids = rng.sample(range(1, 10), ncols)
+    nadd, nex = rng.choice([0, 1, 1, 2, 3]), rng.choice([0, 0, 1, 2])
+    if nadd + nex == 0:
+        nadd = 1
+    hot = rng.choice([0, 1, 1, 2, 5, -1, "123", dt.date(2020, 1, 1)])     # the value many columns hold, each in its own type
+    files = []
+    for _ in range(nadd + nex):
+        r = rng.random()
+        if r < 0.06:
+            files.append((None, None))
+            continue
+        if r < 0.1:
+            files.append(({}, {}))
+            continue
+        lo: Dict[int, Any] = {}
+        hi: Dict[int, Any] = {}
+        for fid, kind in zip(ids, kinds):
+            if rng.random() < 0.1:
+                continue                                    # all-NULL column: no bound
+            tw = twin_value(kind, hot)
+            if tw is not None and rng.random() < 0.55:
+                a = b = canon_cell(kind, tw)
+                if rng.random() < 0.3:
+                    _x, b = gen_column_bounds(rng, kind)
+                    if not (isinstance(b, float) and b != b) and b < a:
+                        a, b = b, a
+                    elif isinstance(b, float) and b != b:
+                        b = a
+            else:
+                a, b = gen_column_bounds(rng, kind)
+            lo[fid], hi[fid] = a, b
+        files.append((lo, hi))
+    return {"kinds": kinds, "ids": ids, "added": files[:nadd], "existing": files[nadd:]}
+
+
+def manifest_case_json(case: Dict[str, Any]) -> Dict[str, Any]:
+    return {"manifest": True, "kinds": case["kinds"], "ids": case["ids"],
+            "added": [[bmap_json(lo), bmap_json(hi)] for lo, hi in case["added"]],
+            "existing": [[bmap_json(lo), bmap_json(hi)] for lo, hi in case["existing"]]}
+
+
+def manifest_case_unjson(j: Dict[str, Any]) -> Dict[str, Any]:
+    return {"kinds": j["kinds"], "ids": j["ids"], "added": [(bmap_unjson(lo), bmap_unjson(hi)) for lo, hi in j["added"]],
+            "existing": [(bmap_unjson(lo), bmap_unjson(hi)) for lo, hi in j["existing"]]}
+
+
+def manifest_case_problems(bench: ManifestBench, case: Dict[str, Any]) -> List[Dict[str, Any]]:
+    """Implementation only: every entry of the manifest comes back in its place with its own bounds, value AND type -- from the
+    first manifest written for these DataFile objects, and from a second one written from the same objects."""
+    inputs = case["added"] + case["existing"]
+    written, back1, _raw = bench.trip(case["added"], case["existing"])
+    paths = [w.file_path for w in written]
+    try:
+        _w, back2, _raw = bench.trip([], [], objects=(written[:len(case["added"])], written[len(case["added"]):]))
+    except Exception as e:      # noqa: BLE001
+        return [{"what": f"writing a second manifest from the same DataFile objects raises {e!r}"[:300], "from": "rewrite", "to": "raises"}]
+    out = []
+    for trip_no, back in ((1, back1), (2, back2)):
+        tn = "" if trip_no == 1 else " (second manifest written from the same DataFile objects)"
+        if len(back) != len(inputs):
+            out.append({"what": f"{len(inputs)} entries written, {len(back)} read back{tn}", "from": "list", "to": "list"})
+            continue
+        for i, ((olo, ohi), path, b) in enumerate(zip(inputs, paths, back)):
+            if path != b.file_path:
+                out.append({"what": f"entry {i}: file {path} came back as {b.file_path}{tn}", "from": "path", "to": "path"})
+                continue
+            for side, ow, bw in (("lower", olo, b.lower_bounds), ("upper", ohi, b.upper_bounds)):
+                if bounds_same(ow, bw):
+                    continue
+                o_, b_ = ow or {}, bw or {}
+                if set(o_) != set(b_):
+                    out.append({"what": f"entry {i}: {side} bounds of fields {sorted(o_, key=repr)} came back for fields {sorted(b_, key=repr)}{tn}",
+                                "from": "ids", "to": "ids"})
+                    continue
+                for k in o_:
+                    if not same(o_[k], b_[k]):
+                        out.append({"what": f"entry {i} ({'ADDED' if i < len(case['added']) else 'EXISTING'}), field {k}: {side} bound "
+                                            f"{o_[k]!r} ({type(o_[k]).__name__}) came back from the manifest as {b_[k]!r} ({type(b_[k]).__name__}){tn}",
+                                    "from": type(o_[k]).__name__, "to": type(b_[k]).__name__})
+    return out
+
+
+def oracle_manifest(ctx, bench: ManifestBench) -> List[Dict[str, Any]]:
+    """Bounds survive the MANIFEST round trip type-faithfully (real create_manifest_file -> read_manifest_file)."""
+    n = 1000 if ctx.tier == "quick" else 10000
+    cases = [gen_manifest_case(ctx.rng) for _ in range(n)]
+    bad = 0
+    nbounds = 0
+    for case in cases:
+        ctx.count(1, ("manifest", repr(case)))
+        nbounds += sum(len(lo or {}) + len(hi or {}) for lo, hi in case["added"] + case["existing"])
+        for pr in manifest_case_problems(bench, case):
+            bad += 1
+            ctx.violation(f"manifest-roundtrip:{pr['from']}-as-{pr['to']}", pr["what"], manifest_case_json(case))
+    ctx.stats["manifest_oracle_manifests"] = n
+    ctx.stats["manifest_oracle_bounds"] = nbounds
+    ctx.stats["manifest_oracle_bad_bounds"] = bad
+    return cases
+
+
 # ---------------------------------------------------------------------------------- oracles (impl only)
-def unsound_case(kind: str, vs: List[Any], op: str, lit: Any) -> Optional[Dict[str, Any]]:
-    """Real bounds -> real _file_may_match -> real pyarrow. Returns a description iff pruning loses a row."""
+PLAIN_LAYOUT: Dict[str, Any] = {"before": [], "after": [], "siblings": 0, "existing": False}
+
+
+def gen_layouts(rng, kind: str, n: int) -> List[Dict[str, Any]]:
+    """Where the column under test sits: companion columns of other kinds before / after it in the schema (holding, row by row,
+    the value equal to the tested column's where the kind has one), sibling files earlier in the same manifest (a multi-append
+    transaction), the file itself an ADDED entry or a carried-over EXISTING one (manifest rewritten by a partial delete)."""
+    if kind in NUMERIC_KINDS:
+        others = [k for k in NUMERIC_KINDS if k != kind] + ["string"]
+    else:
+        others = [k for k in ("string", "long", "double", "date", "timestamp") if k != kind]
+    out = [dict(PLAIN_LAYOUT)]
+    for _ in range(n):
+        out.append({"before": [rng.choice(others) for _ in range(rng.choice([0, 1, 1, 2]))],
+                    "after": [rng.choice(others) for _ in range(rng.choice([0, 0, 1]))],
+                    "siblings": rng.choice([0, 0, 1, 2]), "existing": rng.random() < 0.3})
+    return out
+
+
+def prepare_file(bench: ManifestBench, kind: str, vs: List[Any], layout: Dict[str, Any]) -> Tuple[Any, Dict[int, Any], Dict[int, Any], int]:
+    """The file's rows as an Arrow table, and the bounds the PLANNER sees for it: computed by the real _compute_column_bounds over
+    all its columns, written by the real create_manifest_file next to its sibling entries, read by the real read_manifest_file."""
+    import pyarrow as pa
+    from datashard.data_operations import DataFileManager
+    from datashard.data_structures import Schema
+    cols = [(f"p{i}", k) for i, k in enumerate(layout["before"])] + [("c", kind)] + \
+           [(f"q{i}", k) for i, k in enumerate(layout["after"])]
+    fields = [{"id": i + 1, "name": n, "type": k, "required": False} for i, (n, k) in enumerate(cols)]
+    fid = len(layout["before"]) + 1
+    data = {n: pa.array([v if n == "c" else twin_value(k, v) for v in vs], arrow_type(k)) for n, k in cols}
+    table = pa.table(data)
+    dfm = DataFileManager.__new__(DataFileManager)
+    lo, hi = DataFileManager._compute_column_bounds(dfm, table, Schema(schema_id=1, fields=fields))
+    mine = (lo, hi)
+    sibs = [(None if lo is None else dict(lo), None if hi is None else dict(hi)) for _ in range(layout["siblings"])]
+    if layout["existing"]:
+        _w, back, _r = bench.trip(sibs, [mine])
+    else:
+        _w, back, _r = bench.trip(sibs + [mine], [])
+    me = back[-1]
+    return table, (me.lower_bounds or {}), (me.upper_bounds or {}), fid
+
+
+def judge_file(prepared: Tuple[Any, Dict[int, Any], Dict[int, Any], int], op: str, lit: Any) -> Optional[List[Any]]:
+    """real _file_may_match on the planner's bounds -> real pyarrow on the rows.  Returns the rows lost iff pruning loses some."""
     pa, filters, DataFile, FileFormat, Schema = _imports()
-    table, lo, hi = real_bounds(kind, vs)
-    # bounds travel through the manifest codec on their way to the reader
-    from datashard.file_manager import FileManager
-    lo = {k: FileManager._decode_bound(FileManager._encode_bound(v)) for k, v in lo.items()}
-    hi = {k: FileManager._decode_bound(FileManager._encode_bound(v)) for k, v in hi.items()}
-    df = DataFile(file_path="/data/x.parquet", file_format=FileFormat.PARQUET, partition_values={}, record_count=len(vs),
+    table, lo, hi, fid = prepared
+    df = DataFile(file_path="/data/x.parquet", file_format=FileFormat.PARQUET, partition_values={}, record_count=table.num_rows,
                   file_size_in_bytes=1, lower_bounds=lo, upper_bounds=hi)
     fe = filters.FilterExpression("c", filters.FilterOp[op], lit)
-    may = filters._file_may_match(df, [fe], {"c": 1})
-    if may:
+    if filters._file_may_match(df, [fe], {"c": fid}):
         return None
     sel = pyarrow_selects(filters, table, "c", op, lit)
     if isinstance(sel, tuple) or not sel:
         return None
-    return {"kind": kind, "values": [val_json(v) for v in vs], "op": op, "literal": val_json(lit),
-            "lower": val_json(lo.get(1)), "upper": val_json(hi.get(1)), "rows_lost": [val_json(x) for x in sel]}
+    return sel
 
 
-def oracle_unsound(ctx) -> None:
+def unsound_case(kind: str, vs: List[Any], op: str, lit: Any, layout: Optional[Dict[str, Any]] = None,
+                 bench: Optional[ManifestBench] = None, prepared: Any = None) -> Optional[Dict[str, Any]]:
+    """Real bounds -> real manifest -> real _file_may_match -> real pyarrow. Returns a description iff pruning loses a row."""
+    layout = layout or PLAIN_LAYOUT
+    if prepared is None:
+        prepared = prepare_file(bench, kind, vs, layout)
+    sel = judge_file(prepared, op, lit)
+    if sel is None:
+        return None
+    _t, lo, hi, fid = prepared
+    return {"kind": kind, "values": [val_json(v) for v in vs], "op": op, "literal": val_json(lit), "layout": layout,
+            "lower": val_json(lo.get(fid)), "upper": val_json(hi.get(fid)), "rows_lost": [val_json(x) for x in sel]}
+
+
+def unsound_text(bad: Dict[str, Any]) -> str:
+    lay = bad["layout"]
+    where = ""
+    if lay["before"] or lay["after"] or lay["siblings"] or lay["existing"]:
+        where = (f" (columns before {lay['before']}, after {lay['after']}, {lay['siblings']} sibling file(s) in the manifest, "
+                 f"{'EXISTING' if lay['existing'] else 'ADDED'} entry; bounds read back {bad['lower']} .. {bad['upper']})")
+    return f"file {bad['values']} skipped for {bad['op']} {bad['literal']} although pyarrow selects {bad['rows_lost']}{where}"
+
+
+def oracle_unsound(ctx, bench: ManifestBench) -> None:
     n = 0
-    skipped = 0
+    nfiles = 0
+    cross = [[x] for x in (0.1, 0.5, 5.5, 2, 1, 0, True, NAN, float.fromhex("0x1.99999a0000000p-4"))]
     for kind, dom in DOMAIN.items():
         sets = multisets(kind, 3 if ctx.tier == "thorough" else 2, ctx.rng, None if ctx.tier == "thorough" else 40)
         same_kind_lits = [l for l in LITERALS + dom if l is not None]
         for vs in sets:
-            for op in SCALAR_OPS:
-                lits = same_kind_lits if ctx.tier == "thorough" else ctx.rng.sample(same_kind_lits, 8) + dom[:3]
-                for lit in lits:
+            for layout in gen_layouts(ctx.rng, kind, 3 if ctx.tier == "quick" else 5):
+                plain = layout == PLAIN_LAYOUT
+                prepared = prepare_file(bench, kind, vs, layout)
+                nfiles += 1
+                # literals: the file's own values in every type they have a twin in, plus cross-kind literals
+                own = []
+                for v in vs:
+                    for k2 in [kind] + NUMERIC_KINDS:
+                        t = twin_value(k2, v)
+                        if t is not None and not any(same(t, o) for o in own):
+                            own.append(t)
+                for op in SCALAR_OPS:
+                    if ctx.tier == "thorough":
+                        lits = same_kind_lits if plain else ctx.rng.sample(same_kind_lits, 10)
+                    elif plain:
+                        lits = ctx.rng.sample(same_kind_lits, 8) + dom[:3]
+                    else:
+                        lits = ctx.rng.sample(same_kind_lits, 3)
+                    for lit in lits + own:
+                        n += 1
+                        bad = unsound_case(kind, vs, op, lit, layout, prepared=prepared)
+                        if bad:
+                            ctx.violation(f"prune-unsound:{op}:{kind}", unsound_text(bad), bad)
+                in_lists = [[x] for x in dom] + [[dom[0], dom[-1]], []] + cross if plain else \
+                           [[x] for x in own] + [[2], [0, 1], [ctx.rng.choice(dom)]] + ctx.rng.sample(cross, 3)
+                for lst in in_lists:
                     n += 1
-                    bad = unsound_case(kind, vs, op, lit)
+                    bad = unsound_case(kind, vs, "IN", lst, layout, prepared=prepared)
                     if bad:
-                        ctx.violation(f"prune-unsound:{op}:{kind}", f"file {bad['values']} skipped for {op} {bad['literal']} although pyarrow selects {bad['rows_lost']}", bad)
-            cross = [[x] for x in (0.1, 0.5, 5.5, 2, 1, 0, True, NAN, float.fromhex("0x1.99999a0000000p-4"))]
-            for lst in ([[x] for x in dom] + [[dom[0], dom[-1]], []] + cross):
-                n += 1
-                bad = unsound_case(kind, vs, "IN", lst)
-                if bad:
-                    ctx.violation(f"prune-unsound:IN:{kind}", f"file {bad['values']} skipped for IN {bad['literal']} although pyarrow selects {bad['rows_lost']}", bad)
+                        ctx.violation(f"prune-unsound:IN:{kind}", unsound_text(bad), bad)
     ctx.count(n)
     ctx.stats["unsound_oracle_cases"] = n
+    ctx.stats["unsound_oracle_files_through_a_real_manifest"] = nfiles
 
 
 # the end-to-end oracle also covers column types for which the writer stores NO bounds (binary): pruning must then
@@ -345,59 +672,172 @@ def _rand_value(rng, kind: str) -> Any:
     return rng.choice(E2E_DOMAIN[kind])
 
 
+def _rand_twin_value(rng, kind: str) -> Any:
+    """Cells of the numeric-twins tables: every numeric column draws from the same few numbers, each in its own type."""
+    r = rng.random()
+    if r < 0.15:
+        return None
+    if kind in ("double", "float") and r < 0.35:
+        return NAN
+    for _ in range(8):
+        t = twin_value(kind, rng.choice([0, 1, 1, 2]))
+        if t is not None:
+            return t
+    return None
+
+
+def _append_once_retried(table: Any, do_append: Any) -> None:
+    """Run do_append() while the first MetadataManager.commit loses one optimistic-concurrency race (the manifests are rebuilt
+    from the same in-memory DataFile objects)."""
+    from datashard.metadata_manager import ConcurrentModificationException
+    mm_ = table.metadata_manager
+    real_commit = mm_.commit
+    fired = [False]
+
+    def flaky_commit(base: Any, new: Any, _rc=real_commit, _f=fired) -> Any:
+        if not _f[0]:
+            _f[0] = True
+            raise ConcurrentModificationException("injected: lost the race once")
+        return _rc(base, new)
+    mm_.commit = flaky_commit
+    try:
+        do_append()
+    finally:
+        mm_.commit = real_commit
+
+
+def e2e_apply_step(table: Any, step: Dict[str, Any]) -> None:
+    """One step of a table history: {"op": "append", "files": [records, ...], "retried": bool} -- ONE transaction appending one
+    or several files (one manifest with that many ADDED entries) -- or {"op": "delete", "index": k} -- a transaction deleting the
+    k-th data file of the current listing (a partial delete rewrites that file's manifest with EXISTING entries)."""
+    if step["op"] == "append":
+        def go() -> None:
+            if len(step["files"]) == 1:
+                table.append_records(step["files"][0])
+            else:
+                with table.new_transaction() as tx:
+                    for recs in step["files"]:
+                        tx.append_data(recs)
+                    tx.commit()
+        if step.get("retried"):
+            _append_once_retried(table, go)
+        else:
+            go()
+    elif step["op"] == "delete":
+        files = table._get_all_data_files()
+        if files:
+            victim = files[step["index"] % len(files)].file_path
+            with table.new_transaction() as tx:
+                tx.delete_files([victim])
+                tx.commit()
+    else:
+        raise ValueError(step["op"])
+
+
+def e2e_compare(table: Any, flt: Dict[str, Any]) -> Tuple[str, Any, Any]:
+    """('skip' | 'same' | 'differs', pruned, unpruned): scan(filter) with pruning vs with prune_files_by_bounds = identity."""
+    from datashard import filters
+    real_prune = filters.prune_files_by_bounds
+    try:
+        filters.prune_files_by_bounds = lambda data_files, expressions, schema: data_files
+        try:
+            unpruned = table.scan(filter=flt)
+        finally:
+            filters.prune_files_by_bounds = real_prune
+    except Exception:       # noqa: BLE001  (see DESIGN.md C13 "Interpretation": stated for unpruned = Ok R)
+        return "skip", None, None
+    try:
+        pruned = table.scan(filter=flt)
+    except Exception as e:  # noqa: BLE001
+        pruned = ("raises", repr(e)[:200])
+    key_rows = lambda rows: sorted(repr(sorted((k, repr(v)) for k, v in r.items())) for r in rows)
+    if isinstance(pruned, tuple) or key_rows(pruned) != key_rows(unpruned):
+        return "differs", pruned, unpruned
+    return "same", pruned, unpruned
+
+
+def steps_json(steps: List[Dict[str, Any]]) -> List[Dict[str, Any]]:
+    out = []
+    for st in steps:
+        if st["op"] == "append":
+            out.append({"op": "append", "retried": bool(st.get("retried")),
+                        "files": [[{k: val_json(v) for k, v in r.items()} for r in f] for f in st["files"]]})
+        else:
+            out.append(dict(st))
+    return out
+
+
+def steps_unjson(steps: List[Dict[str, Any]]) -> List[Dict[str, Any]]:
+    out = []
+    for st in steps:
+        if st["op"] == "append":
+            out.append({"op": "append", "retried": bool(st.get("retried")),
+                        "files": [[{k: val_unjson(v) for k, v in r.items()} for r in f] for f in st["files"]]})
+        else:
+            out.append(dict(st))
+    return out
+
+
 def oracle_e2e(ctx) -> None:
     """Real tables: scan(filter) with pruning vs. with prune_files_by_bounds replaced by the identity."""
-    from datashard import create_table, filters
+    from datashard import create_table
     from datashard.data_structures import Schema
     rng = ctx.rng
-    ntables = 24 if ctx.tier == "quick" else 200
+    ntables = 32 if ctx.tier == "quick" else 240
     kinds = list(E2E_DOMAIN)
     total = 0
     skipped_raise = 0
     differing = 0
-    real_prune = filters.prune_files_by_bounds
-    retried = [0]
+    retried = 0
+    multi = 0
+    deletes = 0
     for t in range(ntables):
+        twins = False
         cols = rng.sample(kinds, rng.choice([1, 2, 3]))
         if t % 4 == 0:
             cols = ["binary", rng.choice([k for k in kinds if k != "binary"])]     # a column without bounds next to one with bounds
         elif t % 4 == 1:
             cols = [rng.choice(["date", "timestamp"]), rng.choice([k for k in kinds if k not in ("date", "timestamp")])]
+        elif t % 4 == 2:
+            # numeric twins: columns of different numeric kinds, in any order, holding the same few numbers each in its own type,
+            # NaN and NULL rows, single-valued files
+            twins = True
+            cols = rng.sample(NUMERIC_KINDS, rng.choice([2, 3]))
         fields = [{"id": i + 1, "name": f"c{i}", "type": k, "required": False} for i, k in enumerate(cols)]
         schema = Schema(schema_id=1, fields=fields)
         path = os.path.join(ctx.scratch, f"t{t}")
         table = create_table(path, schema)
-        files = []
-        retried_flags: List[bool] = []
-        for _ in range(rng.choice([1, 2, 3, 4])):
-            before_retried = retried[0]
-            recs = [{f"c{i}": _rand_value(rng, k) for i, k in enumerate(cols)} for _ in range(rng.choice([1, 2, 3, 5]))]
-            if rng.random() < 0.3:
-                v = {f"c{i}": _rand_value(rng, k) for i, k in enumerate(cols)}
-                recs = [dict(v) for _ in recs]     # single-valued file
-            if rng.random() < 0.35:
-                # the commit loses one optimistic-concurrency race and is retried (the manifests are rebuilt from the same
-                # in-memory DataFile objects): bounds must survive the second encoding exactly like the first
-                from datashard.metadata_manager import ConcurrentModificationException
-                mm_ = table.metadata_manager
-                real_commit = mm_.commit
-                fired = [False]
+        cellgen = _rand_twin_value if twins else _rand_value
 
-                def flaky_commit(base: Any, new: Any, _rc=real_commit, _f=fired) -> Any:
-                    if not _f[0]:
-                        _f[0] = True
-                        raise ConcurrentModificationException("injected: lost the race once")
-                    return _rc(base, new)
-                mm_.commit = flaky_commit
-                try:
-                    table.append_records(recs)
-                finally:
-                    mm_.commit = real_commit
-                retried[0] += 1
+        def gen_file() -> List[Dict[str, Any]]:
+            recs = [{f"c{i}": cellgen(rng, k) for i, k in enumerate(cols)} for _ in range(rng.choice([1, 2, 3, 5]))]
+            if rng.random() < (0.5 if twins else 0.3):
+                v = {f"c{i}": cellgen(rng, k) for i, k in enumerate(cols)}
+                recs = [dict(v) for _ in recs]     # single-valued file
+                if twins and len(recs) > 1 and rng.random() < 0.6:
+                    for i, k in enumerate(cols):
+                        if k in ("double", "float"):
+                            recs[-1][f"c{i}"] = NAN     # ... next to a NaN row (bounds skip NaN)
+            return recs
+        steps: List[Dict[str, Any]] = []
+        nfiles = 0
+        for _ in range(rng.choice([1, 2, 3, 4])):
+            r = rng.random()
+            if nfiles >= 2 and r < 0.2:
+                step: Dict[str, Any] = {"op": "delete", "index": rng.randrange(8)}
+                deletes += 1
+                nfiles -= 1
             else:
-                table.append_records(recs)
-            files.append(recs)
-            retried_flags.append(retried[0] > before_retried)
+                nf = rng.choice([2, 2, 3]) if r < 0.5 else 1     # several files appended by ONE transaction share a manifest
+                step = {"op": "append", "files": [gen_file() for _ in range(nf)], "retried": rng.random() < 0.35}
+                # (a retried commit rebuilds the manifests from the same in-memory DataFile objects: bounds must survive the second
+                # encoding exactly like the first)
+                retried += 1 if step["retried"] else 0
+                multi += 1 if nf > 1 else 0
+                nfiles += nf
+            e2e_apply_step(table, step)
+            steps.append(step)
+        files = [f for st in steps if st["op"] == "append" for f in st["files"]]
         # directed: the null tests on EVERY column (columns without stored bounds included), alone and next to a comparison
         directed = []
         for i in range(len(cols)):
@@ -422,6 +862,27 @@ def oracle_e2e(ctx) -> None:
                 for lit in lits:
                     for opn in ("==", "!=", "<", "<=", ">", ">="):
                         directed.append({f"c{i}": (opn, lit)})
+        # directed: on every column with bounds, the values the files really hold (a file whose min or max IS the literal must be kept)
+        for i, kind in enumerate(cols):
+            if kind == "binary":
+                continue
+            present = [v for v in {repr(r.get(f"c{i}")): r.get(f"c{i}") for f in files for r in f}.values()
+                       if v is not None and not (isinstance(v, float) and v != v)]
+            for v in rng.sample(present, min(3, len(present))):
+                for opn in ("==", "<=", ">="):
+                    directed.append({f"c{i}": (opn, v)})
+                directed.append({f"c{i}": ("in", [v])})
+        if twins:
+            # directed: on every column, the decisions that depend on the TYPE of the stored bound (!= on float bounds, in / not_in
+            # across bool / int / float), with each number present written as int, float and bool
+            for i, kind in enumerate(cols):
+                for x in (0, 1, 2):
+                    for lit in (x, float(x)) + ((bool(x),) if x < 2 else ()):
+                        directed.append({f"c{i}": ("!=", lit)})
+                        directed.append({f"c{i}": ("in", [lit])})
+                    directed.append({f"c{i}": ("in", [x, 7])})
+                    directed.append({f"c{i}": ("not_in", [x])})
+                    directed.append({f"c{i}": ("==", x)})
         nrand = 10 if ctx.tier == "quick" else 30
         for fi in range(nrand + len(directed)):
             flt = {}
@@ -456,32 +917,23 @@ def oracle_e2e(ctx) -> None:
                 else:
                     flt[f"c{i}"] = (rng.choice(["is_null", "is_not_null"]), True)
             total += 1
-            try:
-                filters.prune_files_by_bounds = lambda data_files, expressions, schema: data_files
-                try:
-                    unpruned = table.scan(filter=flt)
-                finally:
-                    filters.prune_files_by_bounds = real_prune
-            except Exception:
+            verdict, pruned, unpruned = e2e_compare(table, flt)
+            if verdict == "skip":
                 skipped_raise += 1
                 continue
-            try:
-                pruned = table.scan(filter=flt)
-            except Exception as e:
-                pruned = ("raises", repr(e)[:200])
-            key_rows = lambda rows: sorted(repr(sorted((k, repr(v)) for k, v in r.items())) for r in rows)
-            if isinstance(pruned, tuple) or key_rows(pruned) != key_rows(unpruned):
+            if verdict == "differs":
                 differing += 1
                 ctx.violation("scan-differs:" + ",".join(sorted({str(v[0]) for v in flt.values()})),
                               f"scan with pruning differs from scan without for filter {flt!r}",
-                              {"e2e": True, "retried": list(retried_flags),
-                               "schema": fields, "files": [[{k: val_json(v) for k, v in r.items()} for r in f] for f in files],
+                              {"e2e": True, "schema": fields, "steps": steps_json(steps),
                                "filter": {k: [v[0], val_json(v[1])] for k, v in flt.items()},
                                "pruned": repr(pruned)[:500], "unpruned": repr(unpruned)[:500]})
         shutil.rmtree(path, ignore_errors=True)
     ctx.count(total)
     ctx.stats["e2e_scans"] = total
-    ctx.stats["e2e_appends_committed_after_one_retry"] = retried[0]
+    ctx.stats["e2e_appends_committed_after_one_retry"] = retried
+    ctx.stats["e2e_multi_file_transactions"] = multi
+    ctx.stats["e2e_partial_or_full_deletes"] = deletes
     ctx.stats["e2e_unpruned_raises_skipped"] = skipped_raise
     ctx.stats["e2e_differing"] = differing
 
@@ -523,14 +975,112 @@ def corr_codec(ctx) -> None:
     ctx.correspondence("codec", len(vals), bad)
 
 
+def bmap_opt_coq(b: Optional[Dict[int, Any]]) -> str:
+    if b is None:
+        return "(@None bmap)"
+    if not b:
+        return "(@Some bmap [])"
+    return "(@Some bmap [" + "; ".join(f"(({k})%Z, {val_to_coq(v)})" for k, v in b.items()) + "])"
+
+
+def dfb_coq(lo: Optional[Dict[int, Any]], hi: Optional[Dict[int, Any]]) -> str:
+    return f"{{| df_lower := {bmap_opt_coq(lo)}; df_upper := {bmap_opt_coq(hi)} |}}"
+
+
+def dfbs_coq(files: List[Tuple[Any, Any]]) -> str:
+    return "(@nil dfb)" if not files else "[" + "; ".join(dfb_coq(lo, hi) for lo, hi in files) + "]"
+
+
+def corr_manifest(ctx, bench: ManifestBench, cases: List[Dict[str, Any]]) -> None:
+    """The same multi-entry, multi-column manifests through the real writer / reader and through Model/Manifest13.v:
+         * what the writer puts into the Avro records (entry order, status, field-id keys, the type tag of every encoded bound)
+           vs write_manifest;
+         * the DataFiles read back (which fields, which value of which type) vs via_manifest;
+         * the pruning decision of the real _file_may_match on each DataFile read back vs file_may_match on the model's."""
+    import json as _json
+    pa, filters, DataFile, FileFormat, Schema = _imports()
+    rng = ctx.rng
+    cases = [c for c in cases if all(not (isinstance(v, int) and not isinstance(v, bool) and abs(v) > 2**200)
+                                     for lo, hi in c["added"] + c["existing"] for b in (lo, hi) for v in (b or {}).values())]
+    if ctx.tier == "quick":
+        cases = cases[:120]
+    twin_lits = [0, 1, 2, 5, -1, 0.0, 1.0, 2.0, 5.0, False, True, "123", 123]
+    exprs_w, exprs_r, exprs_expected, exprs_p = [], [], [], []
+    impl_w, impl_p, fes_all = [], [], []
+    for c in cases:
+        written, back, raw = bench.trip(c["added"], c["existing"], want_raw=True)
+        A, E = dfbs_coq(c["added"]), dfbs_coq(c["existing"])
+        # writer side
+        def tags(m: Any) -> Any:
+            return None if m is None else [(int(k), _json.loads(v)["t"]) for k, v in m.items()]
+        impl_w.append([(r["status"], tags(r["data_file"]["lower_bounds"]), tags(r["data_file"]["upper_bounds"])) for r in raw])
+        tg = "(option_map (map (fun kv : akey * ebound => (py_int_of_key (fst kv), fst (snd kv)))))"
+        exprs_w.append(f"map (fun r => (r_status r, {tg} (r_lower r), {tg} (r_upper r))) (write_manifest {A} {E})")
+        # reader side
+        exprs_r.append(f"map (fun d => (df_lower d, df_upper d)) (via_manifest {A} {E})")
+        exprs_expected.append("[" + "; ".join(f"({bmap_opt_coq(b.lower_bounds)}, {bmap_opt_coq(b.upper_bounds)})" for b in back) + "]")
+        # pruning decision on what was read back
+        ids = {f"c{i}": fid for i, fid in enumerate(c["ids"])}
+        fes = []
+        for _ in range(rng.choice([1, 1, 2])):
+            col = rng.randrange(len(c["ids"]))
+            op = rng.choice(["NE", "NE", "IN", "IN", "EQ", "LT", "GE", "NOT_IN"])
+            present = [v for lo, hi in c["added"] + c["existing"] for b in (lo, hi) for v in (b or {}).values()
+                       if not (isinstance(v, int) and not isinstance(v, bool) and abs(v) > 2**60)]
+            pool = twin_lits + present
+            val = [rng.choice(pool) for _ in range(rng.choice([1, 1, 2]))] if op in ("IN", "NOT_IN") else rng.choice(pool)
+            fes.append((col, op, val))
+        fes_all.append(fes)
+        real_fes = [filters.FilterExpression(f"c{col}", filters.FilterOp[op], v) for col, op, v in fes]
+        impl_p.append([bool(filters._file_may_match(b, real_fes, ids)) for b in back])
+        ids_coq = "[" + "; ".join(f"(({i})%Z, ({fid})%Z)" for i, fid in enumerate(c["ids"])) + "]"
+        es_coq = "[" + "; ".join(fexpr_coq(col, op, v) for col, op, v in fes) + "]"
+        exprs_p.append(f"map (fun d => file_may_match (fst (df_view d)) (snd (df_view d)) {ids_coq} {es_coq}) (via_manifest {A} {E})")
+    got_w = coqbuild.coq_eval(REQM, exprs_w)
+    got_r = coqbuild.coq_eval(REQM, exprs_r)
+    want_r = coqbuild.coq_eval(REQM, exprs_expected)
+    got_p = coqbuild.coq_eval(REQM, exprs_p)
+    bad = []
+
+    def norm_w(x: Any) -> Any:
+        # parsed Coq: status int, option as Some(x)/None, pairs as tuples
+        out = []
+        for st, lo, hi in x:
+            f = lambda o: None if o is None else [(k, t) for k, t in (o.x if hasattr(o, "x") else o)]
+            out.append((st, f(lo), f(hi)))
+        return out
+    for c, iw, gw, gr, wr, ip, gp, fes in zip(cases, impl_w, got_w, got_r, want_r, impl_p, got_p, fes_all):
+        ctx.count(1, ("manifest-corr", repr(c), repr(fes)))
+        problems = []
+        if norm_w(gw) != [(st, lo, hi) for st, lo, hi in iw]:
+            problems.append({"piece": "records written", "impl": repr(iw)[:400], "model": repr(norm_w(gw))[:400]})
+        if gr != wr:
+            problems.append({"piece": "bounds read back", "impl": repr(wr)[:400], "model": repr(gr)[:400]})
+        if list(gp) != ip:
+            problems.append({"piece": "pruning decision on the DataFiles read back", "exprs": [(col, op, val_json(v)) for col, op, v in fes],
+                             "impl": ip, "model": list(gp)})
+        if problems:
+            bad.append({"manifest": manifest_case_json(c), "problems": problems})
+    ctx.correspondence("manifest", len(cases), bad)
+    ctx.stats["manifest_corr_cases"] = len(cases)
+    ctx.stats["manifest_corr_entries"] = sum(len(c["added"]) + len(c["existing"]) for c in cases)
+    if cases:
+        ctx.sample({"manifest_case": manifest_case_json(cases[0]), "pruning_exprs": [(col, op, val_json(v)) for col, op, v in fes_all[0]], "impl_keep": impl_p[0]})
+
+
 # ---------------------------------------------------------------------------------- driver
 def run(ctx) -> None:
-    ctx.rule = ("correspondence: exhaustive/sampled small domains over 9 column kinds x 40 cross-kind literals x 10 operators; "
-                "oracle: real bounds -> real _file_may_match -> real pyarrow on value multisets of size <= 3, plus random "
+    ctx.rule = ("correspondence: exhaustive/sampled small domains over 9 column kinds x 40 cross-kind literals x 10 operators, and "
+                "multi-entry multi-column manifests through the real writer / reader; "
+                "oracle: real bounds of multi-column files -> real manifest -> real _file_may_match -> real pyarrow on value "
+                "multisets of size <= 3, every bound of random real manifests, plus random "
                 "end-to-end tables (pruned vs unpruned scans); a case is distinct by its full (values, operator, literal) tuple")
     ctx.trusted_base += [
         "translator/gen_prune.py (Python ast -> Gallina for _file_may_match's try block; loop skeleton pinned by golden AST)",
         "translator/gen_bound.py (_encode_bound isinstance chain, _decode_bound tag dispatch; JSON wrapping pinned by golden AST)",
+        "translator/gen_manifest13.py (create_manifest_file's entry order and per-record bounds expressions, read_manifest_file's record loop; "
+        "everything else in the two functions that could touch a bound is checked fail-closed)",
+        "assumption Avro-exact: fastavro gives back the list of records and their string maps as written (validated by the manifest oracle / correspondence on real manifests)",
         "assumption JSON-exact: json round trip of bool/int/float(NaN, inf, -0.0)/str payloads and isoformat/fromisoformat of naive temporals are exact (validated by the codec oracle)",
         "assumption PA-exact: pyarrow evaluates a compiled filter to exactly Model/Prune.v `selected` or raises (validated by 'select' correspondence)",
         "assumption: an Arrow column holds values of one kind (hypothesis `homogeneous`)",
@@ -538,21 +1088,33 @@ def run(ctx) -> None:
     ]
     ctx.assumptions += ["field ids unique within a schema (enforced by Schema.__post_init__)",
                         "bounds looked up under the id they were stored under (C11)"]
-    ok = ctx.proofs(THEOREMS, gen_files=["GenPrune.v", "GenBound.v"])
+    ok = ctx.proofs(THEOREMS, gen_files=["GenPrune.v", "GenBound.v", "GenManifest13.v"])
     ctx.allow_axioms([])
+    walls: Dict[str, float] = {}
+
+    def timed(name: str, fn: Any, *a: Any) -> Any:
+        t0 = time.time()
+        try:
+            return fn(*a)
+        finally:
+            walls[name] = round(time.time() - t0, 1)
+            ctx.stats["phase_wall_s"] = walls
+    bench = ManifestBench(ctx)
     # implementation-only oracles always run: they are the search for a concrete failing input
-    oracle_unsound(ctx)
-    oracle_codec(ctx)
-    oracle_e2e(ctx)
-    # correspondence needs the model to build
-    try:
-        corr_prims(ctx)
-        corr_prune(ctx)
-        corr_bounds(ctx)
-        corr_select(ctx)
-        corr_codec(ctx)
-    except RuntimeError as e:
-        ctx.proof_problems.append("model evaluation failed: " + str(e)[:600])
+    timed("oracle_unsound", oracle_unsound, ctx, bench)
+    timed("oracle_codec", oracle_codec, ctx)
+    mcases = timed("oracle_manifest", oracle_manifest, ctx, bench)
+    timed("oracle_e2e", oracle_e2e, ctx)
+    # correspondence needs the model to build; each piece on its own, so that a piece whose Gen file failed closed does not hide
+    # the others
+    for name, fn, args in (("corr_prims", corr_prims, (ctx,)), ("corr_prune", corr_prune, (ctx,)), ("corr_bounds", corr_bounds, (ctx,)),
+                           ("corr_select", corr_select, (ctx,)), ("corr_codec", corr_codec, (ctx,)),
+                           ("corr_manifest", corr_manifest, (ctx, bench, mcases))):
+        try:
+            timed(name, fn, *args)
+        except RuntimeError as e:
+            ctx.proof_problems.append(f"model evaluation failed ({name}): " + str(e)[:600])
+    ctx.stats["manifests_written_and_read"] = bench.manifests
 
 
 def replay(ctx, payload) -> int:
@@ -560,8 +1122,30 @@ def replay(ctx, payload) -> int:
     if "rows_lost" in case:
         vs = [val_unjson(v) for v in case["values"]]
         lit = val_unjson(case["literal"])
-        bad = unsound_case(case["kind"], vs, case["op"], lit)
-        print("replay:", "STILL FAILS " + repr(bad) if bad else "passes now")
+        bad = unsound_case(case["kind"], vs, case["op"], lit, case.get("layout"), bench=ManifestBench(ctx, "replay-bench"))
+        print("replay:", "STILL FAILS " + unsound_text(bad) if bad else "passes now")
+        return 1 if bad else 0
+    if case.get("manifest"):
+        problems = manifest_case_problems(ManifestBench(ctx, "replay-bench"), manifest_case_unjson(case))
+        print("replay:", "STILL FAILS: " + "; ".join(p["what"] for p in problems[:4]) if problems else "passes now")
+        return 1 if problems else 0
+    if case.get("e2e") and "steps" in case:
+        from datashard import create_table
+        from datashard.data_structures import Schema
+        path = os.path.join(ctx.scratch, "replay-e2e")
+        shutil.rmtree(path, ignore_errors=True)
+        table = create_table(path, Schema(schema_id=1, fields=case["schema"]))
+        for st in steps_unjson(case["steps"]):
+            e2e_apply_step(table, st)
+        flt = {}
+        for k, v in case["filter"].items():
+            lit = val_unjson(v[1])
+            if v[0] == "between":
+                lit = tuple(lit)
+            flt[k] = (v[0], lit)
+        verdict, pruned, unpruned = e2e_compare(table, flt)
+        bad = verdict == "differs"
+        print("replay:", f"STILL FAILS: pruned {str(pruned)[:200]} vs unpruned {str(unpruned)[:200]}" if bad else f"passes now ({verdict})")
         return 1 if bad else 0
     if case.get("e2e"):
         from datashard import create_table, filters
